@@ -113,3 +113,45 @@ def run_stream(tables, data, enc, pipe):
     finally:
         cinput.getpreferredencoding = orig
     return out
+
+
+def run_pipe(tables, items, enc, pipe):
+    """End to end: the keypresses `items` (byte strings) are written to the pipe an Input (bytes naming, paste
+    detection on) reads from - all of them have arrived before the first request - and requests with timeout 0
+    are made until nothing comes any more.  Returns the keys handed back (pastes flattened) and what was raised."""
+    import curtsies.input as cinput
+    from curtsies import events as cevents
+    data = b"".join(items)
+    orig = cinput.getpreferredencoding
+    cinput.getpreferredencoding = lambda: ENC_PY[enc]
+    keys, exc = [], ""
+    try:
+        os.write(pipe.w, data)
+        inp = cinput.Input(in_stream=pipe, keynames=tables.modes["bytes"])
+        quiet = 0
+        for _ in range(len(data) + 10):
+            try:
+                k = inp.send(0)
+            except Exception as e:  # noqa
+                exc = type(e).__name__
+                break
+            if k is None:
+                quiet += 1
+                if quiet >= 2:
+                    break
+                continue
+            quiet = 0
+            for x in (k.events if isinstance(k, cevents.PasteEvent) else [k]):
+                keys.append(list(x) if isinstance(x, bytes) else [-1])
+    finally:
+        cinput.getpreferredencoding = orig
+        import fcntl                      # drain what was not read so that the next case starts clean
+        fl = fcntl.fcntl(pipe.r, fcntl.F_GETFL)
+        fcntl.fcntl(pipe.r, fcntl.F_SETFL, fl | os.O_NONBLOCK)
+        try:
+            while os.read(pipe.r, 65536):
+                pass
+        except BlockingIOError:
+            pass
+        fcntl.fcntl(pipe.r, fcntl.F_SETFL, fl)
+    return {"keys": keys, "exc": exc}
